@@ -17,6 +17,11 @@ from .msgtypes import PacketFlags
 from .udpserializer import UDPMessageSerializer
 
 
+def _utcnow() -> dt.datetime:
+    # Aware UTC, differences between naive local times aren't elapsed time across a UTC offset change (DST)
+    return dt.datetime.now(dt.timezone.utc)
+
+
 @dataclasses.dataclass
 class ReliableResendInfo:
     last_resent: dt.datetime
@@ -86,7 +91,7 @@ class Circuit:
             # If the message originates from us then we're responsible for resends.
             if message.reliable and message.synthetic:
                 self.unacked_reliable[(message.direction, message.packet_id)] = ReliableResendInfo(
-                    last_resent=dt.datetime.now(),
+                    last_resent=_utcnow(),
                     message=message,
                 )
             return self._send_prepared_message(message, transport)
@@ -112,7 +117,7 @@ class Circuit:
     def resend_unacked(self):
         for resend_info in list(self.unacked_reliable.values()):
             # Not time to attempt a resend yet
-            if dt.datetime.now() - resend_info.last_resent < dt.timedelta(seconds=self.resend_every):
+            if _utcnow() - resend_info.last_resent < dt.timedelta(seconds=self.resend_every):
                 continue
 
             msg = copy.copy(resend_info.message)
@@ -124,7 +129,7 @@ class Circuit:
                 if not resend_info.completed.done():
                     resend_info.completed.set_exception(TimeoutError("Exceeded resend limit"))
                 continue
-            resend_info.last_resent = dt.datetime.now()
+            resend_info.last_resent = _utcnow()
             msg.send_flags |= PacketFlags.RESENT
             self._send_prepared_message(msg)
 
